@@ -79,6 +79,7 @@ def _run(ctx, tier, exe, wd):
     ncases = len(cases)
     if ncases != cs["distinct"] - 1 or len(set(cases)) != ncases:
         raise RuntimeError("case emission incomplete: %d lines, %d distinct states" % (ncases, cs["distinct"]))
+    idbase = 0
     if ctx.replay_path:      # --replay: only the sequence named in the replay file (it must be in the tier's domain)
         with open(ctx.replay_path) as f:
             want = json.load(f)["replay"]["record"]
@@ -87,8 +88,8 @@ def _run(ctx, tier, exe, wd):
             raise RuntimeError("replay sequence %s is not in the %s domain" % (want, tier))
         with open(casefile) as f:
             line = f.readlines()[cases.index(want)]
-        c = json.loads(line)
-        c["id"] = 1
+        c = json.loads(line)        # keeps its id: the seeded random data depends on it
+        idbase = c["id"] - 1
         with open(casefile, "w") as f:
             f.write(json.dumps(c, separators=(",", ":")) + "\n")
         cases, types, ncases = [want], [c["t"]], 1
@@ -97,7 +98,7 @@ def _run(ctx, tier, exe, wd):
     # 3. replay on the real code, in parallel chunks ---------------------------------------------------------
     nproc = int(os.environ.get("VERIF_JOBS", "12"))
     chunk = max(500, (ncases + nproc * 4 - 1) // (nproc * 4))
-    jobs = [(first, min(chunk, ncases - first + 1)) for first in range(1, ncases + 1, chunk)]
+    jobs = [(first, min(chunk, ncases - first + 1)) for first in range(1, ncases + 1, chunk)]   # (line of the case file, count)
 
     def one(job):
         out = os.path.join(wd, "recs.%07d" % job[0])
@@ -115,7 +116,7 @@ def _run(ctx, tier, exe, wd):
         with open(p) as f:
             for line in f:
                 r = json.loads(line)
-                if r["id"] != len(rr) + 1 or (tuple(r["k"]), tuple(r["p"])) != cases[r["id"] - 1]:
+                if r["id"] - idbase != len(rr) + 1 or (tuple(r["k"]), tuple(r["p"])) != cases[len(rr)]:
                     raise RuntimeError("record %s does not belong to case %d" % (line[:80], len(rr) + 1))
                 rr.append(r)
                 if out is None or n >= shard_max:
@@ -153,9 +154,9 @@ def _run(ctx, tier, exe, wd):
                 first_drift = first_drift or rr[base + v[2] - 1]
         for idx, sig in bad:
             r = rr[base + idx - 1]
-            c = cases[r["id"] - 1]
+            c = cases[r["id"] - idbase - 1]
             check, cls, ftype = (sig + ["?", "?", ""])[:3] if isinstance(sig, list) else ("?", "?", "")
-            names = ",".join("%s/%s" % tp for tp in zip(types[r["id"] - 1], c[1]))
+            names = ",".join("%s/%s" % tp for tp in zip(types[r["id"] - idbase - 1], c[1]))
             key = RESTART_KEY if cls == "restart" else "C10:%s%s" % (check, ":" + ftype if ftype else "")
             nbad += 1
             ctx.violation(key, "fields %s: oracle Own rejects what the real code did (first failing check: %s)%s" %
@@ -195,9 +196,12 @@ def _run(ctx, tier, exe, wd):
         "exhaustive": True,
     }
     ctx.assumptions = [
-        "kind alphabet {UCH,UIN,D2C,BCD,BI0:1,BI1:2,BI3:3,BI7,BI0:7,IGN:1,STR:2,HDA:3,TTM,HEX:*}; sequences of 1..%s fields over both "
-        "parts plus up to %s fields in the slave part; descending/overlapping bit successions are unspecified and not generated"
-        % (("4", "5") if ctx.thorough else ("3", "4")),
+        "kind alphabet {UCH,UIN,D2C,BCD,BI0:1,BI1:2,BI3:3,BI7,BI0:7,IGN:1,STR:2,HDA:3,TTM,HEX:2,HEX:* (last of its part)}; " +
+        ("all sequences of 1..3 fields over both parts and all kinds + 4 fields over both parts and 12 kinds (without D2C,BCD,TTM) "
+         "+ 5 fields in the slave part over the 9 kinds that differ in bookkeeping"
+         if ctx.thorough else
+         "all sequences of 1..3 fields over both parts and all kinds + 4 fields in the slave part over 12 kinds (without D2C,BCD,TTM)") +
+        "; descending/overlapping bit successions are unspecified and not generated; S => P itself holds for any length (fix-point)",
         "dependence of decoding on a bit is observed by single-bit flips on 4 base data (two valid, two seeded random rich in 00/FF)",
         "getLength(part, max) with a variable-length field is only bounded by P (fixed span <= result <= max), exact for max = fixed span",
         "TLC evaluates the TLA+ definitions correctly; the harness logs what the functions returned",
